@@ -110,6 +110,31 @@ func (it *Iterator) SeekToLast() {
 	}
 }
 
+// findRestartPoint returns the index of the last restart point whose key is
+// <= target, or 0 if even the first restart key is > target. Every key before
+// that restart point is < target and every key from the next restart point on
+// is > target, so both the first key >= target and the last key <= target are
+// found by scanning forward from it.
+func (it *Iterator) findRestartPoint(target []byte) (int, bool) {
+	left, right := 0, len(it.reader.restartPoints)-1
+	for left < right {
+		mid := (left + right + 1) / 2
+		it.currentPos = it.reader.restartPoints[mid]
+
+		key, _, ok := it.decodeCurrent()
+		if !ok {
+			return 0, false
+		}
+
+		if bytes.Compare(key, target) <= 0 {
+			left = mid
+		} else {
+			right = mid - 1
+		}
+	}
+	return left, true
+}
+
 // Seek positions the iterator at the first key >= target.
 // It returns false and leaves the iterator invalid if there is no such key.
 func (it *Iterator) Seek(target []byte) bool {
@@ -120,31 +145,14 @@ func (it *Iterator) Seek(target []byte) bool {
 		return false
 	}
 
-	// Binary search for the last restart point whose key is <= target.
-	// Every key before that restart point is < target, and the first key
-	// >= target can be anywhere in the interval that starts there, so the
-	// scan has to begin at this restart point. If even the first restart
-	// key is > target, the scan starts at the first entry of the block.
-	left, right := 0, len(it.reader.restartPoints)-1
-	for left < right {
-		mid := (left + right + 1) / 2
-		it.currentPos = it.reader.restartPoints[mid]
-
-		key, _, ok := it.decodeCurrent()
-		if !ok {
-			it.invalidate()
-			return false
-		}
-
-		if bytes.Compare(key, target) <= 0 {
-			left = mid
-		} else {
-			right = mid - 1
-		}
+	restartIdx, ok := it.findRestartPoint(target)
+	if !ok {
+		it.invalidate()
+		return false
 	}
 
 	// Scan forward until we find the first key >= target
-	it.seekToRestartPoint(left)
+	it.seekToRestartPoint(restartIdx)
 	for {
 		key, val, ok := it.decodeNext()
 		if !ok {
@@ -159,6 +167,42 @@ func (it *Iterator) Seek(target []byte) bool {
 		if bytes.Compare(key, target) >= 0 {
 			return true
 		}
+	}
+}
+
+// SeekForPrev positions the iterator at the last key <= target.
+// It returns false and leaves the iterator invalid if there is no such key.
+func (it *Iterator) SeekForPrev(target []byte) bool {
+	it.initialized = true
+
+	if len(it.reader.restartPoints) == 0 {
+		it.invalidate()
+		return false
+	}
+
+	restartIdx, ok := it.findRestartPoint(target)
+	if !ok {
+		it.invalidate()
+		return false
+	}
+
+	// Scan forward for as long as the next key is still <= target
+	it.seekToRestartPoint(restartIdx)
+	for {
+		prevPos := it.currentPos
+		prevKey, prevVal, prevSeqNum := it.currentKey, it.currentVal, it.currentSeqNum
+
+		key, val, ok := it.decodeNext()
+		if !ok || bytes.Compare(key, target) > 0 {
+			// Step back to the entry before the one just decoded (none
+			// if this was the first entry of the block)
+			it.currentPos = prevPos
+			it.currentKey, it.currentVal, it.currentSeqNum = prevKey, prevVal, prevSeqNum
+			return it.Valid()
+		}
+
+		it.currentKey = key
+		it.currentVal = val
 	}
 }
 
